@@ -274,7 +274,7 @@ func nonRepeating(symbols []pr.NamedString, firstValue, value int) (string, bool
 
 // Implement the algorithm for `type: symbolic`.
 func symbolic(symbols []pr.NamedString, value int) (string, bool) {
-	if len(symbols) == 0 {
+	if len(symbols) == 0 || value < 1 { // defined only over strictly positive values
 		return "", false
 	}
 	L := len(symbols)
